@@ -15,7 +15,7 @@ from scipy.spatial.transform import Rotation as R
 from ..common import import_magpylib, rng
 from ..lattice import Kappa, mat_to_rot
 
-ROT_FORMS = ["rotate", "matrix", "quat", "rotvec_deg", "rotvec_rad", "euler_in", "euler_ex", "mrp", "angax_deg", "angax_rad", "angax_str"]
+ROT_FORMS = ["rotate", "matrix", "quat", "rotvec_deg", "rotvec_rad", "euler_in", "euler_ex", "mrp", "angax_deg", "angax_rad", "angax_str", "rotate_none"]
 
 
 class PathWorld:
@@ -159,6 +159,8 @@ class PathWorld:
         kw = {"anchor": anchor, "start": start}
         if form == "rotate":
             o.rotate(rot, **kw)
+        elif form == "rotate_none":
+            o.rotate(None, **kw)                                                           # documented: None = unit rotation (one rotation, not a path)
         elif form == "matrix":
             o.rotate_from_matrix(rot.as_matrix(), **kw)
         elif form == "quat":
@@ -200,6 +202,8 @@ class PathWorld:
                     out.append("angax_str")
         elif np.all(ang <= 1e-9):
             out += ["angax_deg", "angax_rad", "angax_str"]                                # the unit rotation as angle 0
+            if rot.single:
+                out.append("rotate_none")
         return out
 
     def _bad(self, o, c):
